@@ -161,7 +161,7 @@ func rebuild(r *vf.RNG, v attribute.Value) attribute.Value {
 			out = attribute.Key("k").String(v.AsString()).Value
 		}
 	case attribute.BOOLSLICE:
-		out = attribute.BoolSlice("k", v.AsBoolSlice()).Value
+		out = attribute.BoolSlice("k", spare(r, v.AsBoolSlice(), true)).Value
 	case attribute.INT64SLICE:
 		is := v.AsInt64Slice()
 		if r.Bool() {
@@ -169,25 +169,46 @@ func rebuild(r *vf.RNG, v attribute.Value) attribute.Value {
 			for i := range is {
 				ints[i] = int(is[i])
 			}
+			ints = spare(r, ints, -77)
 			if r.Bool() {
 				out = attribute.IntSliceValue(ints)
 			} else {
 				out = attribute.IntSlice("k", ints).Value
 			}
 		} else {
-			out = attribute.Key("k").Int64Slice(is).Value
+			out = attribute.Key("k").Int64Slice(spare(r, is, int64(-77))).Value
 		}
 	case attribute.FLOAT64SLICE:
-		out = attribute.Float64Slice("k", v.AsFloat64Slice()).Value
+		out = attribute.Float64Slice("k", spare(r, v.AsFloat64Slice(), 7.5)).Value
 	case attribute.STRINGSLICE:
-		out = attribute.Key("k").StringSlice(v.AsStringSlice()).Value
+		out = attribute.Key("k").StringSlice(spare(r, v.AsStringSlice(), "garbage")).Value
 	default:
 		return v
 	}
 	if vf.Canon(out) != vf.Canon(v) {
-		panic("harness: rebuild changed the value")
+		// the typed value a constructor yields must not depend on which constructor was used, nor on the
+		// spare capacity / contents behind the length of the slice it was given
+		panic(fmt.Sprintf("constructor-value-differs: %s built again through another public constructor (slices presented with spare capacity) reads back as %s", vf.Canon(v), vf.Canon(out)))
 	}
 	return out
+}
+
+// spare returns s, half of the time as a prefix of a larger caller-owned array whose tail holds junk: a
+// slice value is the elements up to len, whatever lies behind them.
+func spare[T any](r *vf.RNG, s []T, junk T) []T {
+	if r.Bool() {
+		return s
+	}
+	extra := 1 + r.Intn(4)
+	buf := make([]T, len(s), len(s)+extra)
+	copy(buf, s)
+	tail := buf[len(s):cap(buf)]
+	for i := range tail {
+		if r.Bool() {
+			tail[i] = junk
+		}
+	}
+	return buf
 }
 
 type strer string
@@ -494,6 +515,13 @@ func main() {
 						}
 					}
 					sel = inv
+				}
+				// the filter belongs to the keys it was built from: the caller's slice is reused afterwards
+				for i := range ks {
+					ks[i] = attribute.Key("scribbled-" + string(ks[i]))
+				}
+				if r.Bool() {
+					ks = append(ks[:0], "zz-reused")
 				}
 			case 2: // drop only the first
 				sel = map[string]bool{}
